@@ -153,6 +153,7 @@ def run(tier, seed):
     n_cli = 600 if tier == "quick" else 20000
     parts = core.run_sharded(shard, {"n": n, "seed": seed})
     parts += core.run_sharded(cli_shard, {"n_cli": n_cli, "seed": seed})
+    parts.append(witnesses().to_dict())
     res = core.Result.merge(parts)
     res.counters["max_steps"] = max([p.get("counters", {}).get("max_steps", 0) for p in parts if p and "counters" in p] or [0])
     extra = {
@@ -167,6 +168,22 @@ def run(tier, seed):
         "coverage": {"step_budget": STEP_BUDGET, "max_steps_observed": res.counters.get("max_steps", 0)},
     }
     return res, extra
+
+
+def witnesses():
+    """Finding probes: the witness of every finding of this property (open or fixed) is re-run."""
+    res = core.Result()
+    fs = [f for f in core.load_findings("C04") if f.get("witness")]
+    if fs:
+        probe = core.Probe()
+        for f in fs:
+            case = {"gen": "witness:" + f["id"], "text": f["witness"]["text"]}
+            obs = probe.run({"op": "pipeline", "text": case["text"], "budget": STEP_BUDGET}, timeout=60.0)
+            res.evaluations += 1
+            res.count("witness")
+            judge(res, obs, case, probe)
+        probe.close()
+    return res
 
 
 def replay(case):
